@@ -110,7 +110,7 @@ def run(ctx):
     ctx.rule = ("kFlowDecomp on random DAGs (<= 6 nodes) with flows = superpositions of 1-4 weighted paths (int / dyadic float), "
                 "ignore sets, subpath constraints (edge / length coverage), greedy on/off, safe-path options, given weights; "
                 "non-trivial = LP has >= 1 product block and >= 2 layers, or a solved instance with >= 2 routes")
-    n = ctx.budget(160, 4000)
+    n = ctx.budget(160, 12000)
     for i in range(n):
         rng = ctx.rng("kfd", i)
         args, paths, ws = make_kfd(rng)
